@@ -14,6 +14,8 @@ PROPS = {
                    {"name": "present", "quick": 800, "thorough": 20000, "workers": 12}],
         "rule": "documents from grammars of HTML (inline styles, links, media, blockquotes, lists, headings, pre, hr, unknown tags, character-reference and raw control-character injections), Markdown, gemtext and plain text with URLs x sequences of 1..4 widths (-3..250); "
                 "error text quoting hostile status lines / media types / raw control characters through style.Problem; Scrub and SetLength on raw text with C0, DEL, C1, ESC, tabs; style expressions followed by layout pipelines; "
+                "C01misc: every second op takes the next of all C0 / DEL / C1 code points (then bidi, zero-width, line-separator, tag and annotation characters, which are printable for code and model alike), alone or as the introducer of a CSI / OSC / DCS / APC / PM / SOS sequence with BEL / ST terminators, at the start, in the middle, at the end and right at / before / after the cut of SetLength, inside the error texts that quote server bytes; "
+                "present group: every third item document gets one such character (all in turn) spelled raw, as a decimal / hexadecimal character reference with and without ';', upper-case X, leading zeros, double-escaped, percent-encoded, or a reference beyond U+10FFFF / to a surrogate / overlong, put into every string the item shows (names, handles, summaries, content under each media type, attachment names and links, embedded parents, actors, listed replies), also exactly where a line of the op's widths ends; every fifth op adds a small note / profile that carries the next control character in all its spellings at once in text, preformatted text, code, alt / title / src / href attributes, a tag name, attachment names and links, author names (HTML, Markdown, gemtext / plain text in turn); "
                 "the Safe predicate (printable, newline, complete SGR sequences only) is evaluated on every implementation output; non-trivial = the input contains a control character / a link / several widths; distinct by op content",
         "trusted": ["x/net/html and goldmark: the model renders the forest the real parser produced; the tokenizer never decodes character references inside element names (hypothesis tagsClean of the theorems)",
                     "URL.Host of a successfully dialled host contains no control characters (Actor.Name prints it)", LIBS["regexp"], LIBS["unicode"]],
@@ -29,9 +31,13 @@ PROPS = {
                    {"name": "present", "quick": 400, "thorough": 10000, "workers": 12}],
         "rule": "documents from grammars of HTML (inline styles, links, media, blockquotes, lists, headings, pre, hr, unknown tags, character-reference and raw control-character injections), Markdown, gemtext and plain text with URLs x sequences of 1..4 widths (-3..250); "
                 "every link / image / frame gets a unique label text and target from the generator; predicates on the implementation's output: the superscript number printed after a label opens (links[k-1]) that label's own target, and the numbers 1..N are all shown; non-trivial = the document has links; distinct by op content; "
-                "mediaL group: posts and actors with body links and attachment / icon / image lists, histories of SelectLink(k) for k in -1..6 (and Media, ProfilePic, Banner) on the real items, targets compared with the Link model",
+                "mediaL group: posts and actors with body links and attachment / icon / image lists, histories of SelectLink(k) for k in -1..6 (and Media, ProfilePic, Banner) on the real items, targets compared with the Link model; "
+                "two thirds of the group are whole items (posts, actors, also wrapped in Create / Announce / Like / Dislike): a body in HTML, Markdown (inline, reference, collapsed, shortcut, autolink, bare URL, image, linked image, links inside emphasis, code spans and code blocks that are no links, empty destinations), gemtext or plain text with 0..5, 9..13 or about 100 numbered elements, anchors without / with empty / blank / control-only href before real links, the same target under several numbers, hostile hrefs, label texts with digits, next to 1..4 attachments of every kind (named, unnamed, unusable link, wrong key, spoiled list, single object); "
+                "the model works the body links out from the parsed body; the item's String at two widths is read: the number after each generator label must open (SelectLink on the real item) that label's target, the numbers shown must be exactly 1..N (N = body links + attachments), numbers outside open nothing; half of these ops type the numbers (also 007, 0, over-long) and o / p / b through the real ui.Update on a page showing the item and read the link off the started hook program",
         "trusted": ["x/net/html and goldmark (forest shipped with the op)", LIBS["regexp"]],
-        "assumptions": ["adjacent numbers without any text between them (two empty anchors in a row) are visually ambiguous; the property is stated on the numbers as emitted (ghost labels), see DESIGN.md"],
+        "assumptions": ["adjacent numbers without any text between them (two empty anchors in a row) are visually ambiguous; the property is stated on the numbers as emitted (ghost labels), see DESIGN.md",
+                        "text that carries superscript digits of its own next to a link cannot be told from a number: such items are compared with the model only",
+                        "an attachment whose name has the wrong type (or that has neither a name nor a usable link) is shown as an error line without a number while the following attachment skips that number (DESIGN.md section 6 no. 12): such items are generated, the count of the numbers is judged on them only with VERIF_C12_UNNUMBERED_ATTACHMENT=1"],
     },
     "C14": {
         "timeouts_not_mine": True,
@@ -227,9 +233,10 @@ PROPS = {
                    {"name": "media", "quick": 600, "thorough": 20000, "workers": 12},
                    # configuration files through the real parser: the hook that reaches openExternally is the configured one
                    {"name": "C19", "quick": 1000, "thorough": 20000}],
-        "rule": "hooks of 1..5 arguments drawn from exact placeholders, embedded/near placeholders, dashes and empty strings, with the program itself sometimes named like a placeholder; links with spaces, quotes, shell metacharacters, leading dashes, newlines, placeholder look-alikes; "
+        "rule": "hooks of 1..5 arguments drawn from exact placeholders, embedded/near placeholders (--title=%subtype, %supertype/%subtype, %url%url, quoted, other letter case, truncated), dashes and empty strings, one placeholder repeated, every placeholder twice, every placeholder but %url, with the program itself sometimes named like a placeholder or by its absolute path; links with spaces, quotes, shell metacharacters, leading dashes, newlines, placeholder look-alikes, data: / file: / javascript: / mailto: / relative / blank links; media types given as the triple or as written in a document (parameters, upper case, structured suffix, several slashes, blanks, placeholders inside, none at all) through the real mime.Parse; "
                 "the real ui.openExternally runs a dump program that records argv and stdin; non-trivial = at least one argument after the program; distinct by op content; "
-                "media group: posts and actors built from documents with url / attachment / icon / image link lists (typed, untyped, malformed, shorthand strings) x histories of 3..9 openings (Media, SelectLink k, ProfilePic, Banner, one of them repeated) through the real selection code and the real openExternally; non-trivial = something was selected",
+                "media group: posts and actors built from documents with url / attachment / icon / image link lists (typed, untyped, malformed, shorthand strings) x histories of 3..9 openings (Media, SelectLink k, ProfilePic, Banner, one of them repeated) through the real selection code and the real openExternally; "
+                "half of the group are whole items as in C12's mediaL group (hostile hrefs inside HTML / Markdown / gemtext / plain-text bodies and attachment links, media types from the same pool): the numbers are typed through the real ui.Update (digits + Enter, o, p, b) on a page showing the item, or asked of SelectLink directly, and the recorded argv / stdin of the hook program is compared with the model; every frame drawn meanwhile must be terminal-safe, and a typed number must start the program with what SelectLink answers for that number; non-trivial = something was selected",
         "trusted": ["os/exec passes argv unchanged and never involves a shell (generated fact: exec.Command(command[0], command[1:]...))"],
         "assumptions": ["the hook is non-empty (Config.Safe, C19)"],
     },
